@@ -80,6 +80,7 @@ func genFor(prop, tier string, seed int64, phase string) {
 	}
 	switch prop {
 	case "C01":
+		runMixed(seed, map[string]int{"quick": 1500, "thorough": 30000}[tier], false)
 		if q {
 			runEncode(tier, seed, set("latin"), pickLangs(2), false)
 			runEncode(tier, seed, set("last", "hash", "runs"), pickLangs(1), false)
@@ -88,6 +89,7 @@ func genFor(prop, tier string, seed int64, phase string) {
 			runEncode(tier, seed, set("latin", "last", "hash", "runs", "random", "extremal"), pickLangs(10), false)
 		}
 	case "C05":
+		runMixed(seed, map[string]int{"quick": 1500, "thorough": 30000}[tier], false)
 		if q {
 			runEncode(tier, seed, set("flips"), pickLangs(3), false)
 			runEncode(tier, seed, set("latin", "runs"), pickLangs(1), false)
@@ -96,6 +98,7 @@ func genFor(prop, tier string, seed int64, phase string) {
 			runEncode(tier, seed, set("flips", "latin", "runs", "last", "random", "extremal"), pickLangs(10), false)
 		}
 	case "C02":
+		runMixed(seed, map[string]int{"quick": 1500, "thorough": 30000}[tier], true)
 		if q {
 			runEncode(tier, seed, set("runs"), pickLangs(2), true)
 			runEncode(tier, seed, set("latin", "hash"), pickLangs(1), true)
